@@ -300,11 +300,9 @@ func (c *ClusterInfo) Sync(cluster *proxyv1alpha1.UpstreamCluster) error {
 
 	klog.V(5).Infof("[cluster info] syncing cluster info, name=%q", c.Cluster)
 
-	if cluster.Annotations != nil {
-		if err := c.syncFeatureGate(cluster.Annotations); err != nil {
-			// we should never get here because there is validating admission
-			return err
-		}
+	if err := c.syncFeatureGate(cluster.Annotations); err != nil {
+		// we should never get here because there is validating admission
+		return err
 	}
 
 	// sync flow control type
@@ -567,7 +565,14 @@ func (c *ClusterInfo) syncFeatureGate(annotations map[string]string) error {
 		}
 		return nil
 	}
-	return c.featuregate.Set(featuregate)
+	// the annotation describes the whole set of overrides, so it must be applied
+	// to the defaults instead of being merged into the gates set by previous syncs
+	newFeatureGate := features.DefaultMutableFeatureGate.DeepCopy()
+	if err := newFeatureGate.Set(featuregate); err != nil {
+		return err
+	}
+	c.featuregate = newFeatureGate
+	return nil
 }
 
 // upstream policy    enabled
